@@ -1,7 +1,7 @@
 (* C04 - flow derives pre-release, post and dev parts from the documented branch rules.
    Model: Model/Flow.v (the cli/flow module: branch rules, two-pass pipeline, the five bump templates as the conditions they
    evaluate to) + Model/Hash.v (SipHash-1-3 of DefaultHasher::new(), hash_int / hash). *)
-From ZV Require Import Str Dec Hash Flow FlowProofs Convert Zerv Render Bump Cli ClockProofs CtxFrame FlowClock FlowLaw.
+From ZV Require Import Str Dec Hash Flow FlowProofs Convert Zerv Render Bump Cli ClockProofs CtxFrame FlowClock FlowLaw Findings.
 Open Scope N_scope.
 
 (* rule patterns: `prefix/*` matches exactly the names that have `prefix/` as a proper prefix ... *)
@@ -73,6 +73,12 @@ Theorem c04_second_pass_law : forall lab num mode hl now a s vs ra n,
             apply_component_processing b {| z_schema := s; z_vars := vs |}
             = Some {| z_schema := s; z_vars := law_vars vs opost lab n (flow_post_amount mode vs) (if flow_dev_on mode vs then Some now else None) |}.
 Proof. exact flow_second_pass_law. Qed.
+
+(* KNOWN FINDING of this property, as the model exhibits it (the check prints KNOWN-FINDING for the class; see known_findings.json) *)
+Example c04_finding_c04_hash_len_10 :
+(exists t, flow_output (w_flow [115;116;97;110;100;97;114;100]%N 1 9 [102;101;97;116;117;114;101;47;102;111;111]%N OutSemver) None 1700000000 = OOk t) /\
+  flow_output (w_flow [115;116;97;110;100;97;114;100]%N 1 10 [102;101;97;116;117;114;101;47;102;111;111]%N OutSemver) None 1700000000 = OErr.
+Proof. exact finding_c04_hash_len_10. Qed.
 
 Print Assumptions c04_wildcard_rule.
 Print Assumptions c04_star_rule.
